@@ -28,6 +28,7 @@ func (c clusterLister) ListPods(ctx context.Context, ns string) ([]*corev1.Pod, 
 // runC15: many requests through ONE Admission (sequentially, then from 16 goroutines, under the race detector), each
 // response compared deeply with the response a freshly constructed controller gives to that request handled alone.
 func runC15(c *Ctx) {
+	runC15RealDeps(c)
 	batches, per := 40, 48
 	if c.Thorough {
 		batches = 600
